@@ -2,7 +2,7 @@ SPECIFICATION Spec
 CONSTANTS
   MaxTok = 3
   NTok = 14
-  NBase = 3
+  NBase = 4
   EmitB = TRUE
 INVARIANTS Terminates ResultOk AgreesWithRun EmitBehaviour
 PROPERTY PointerMonotone
